@@ -161,6 +161,10 @@ class _Walk:
             bt = self.backend_test(s.test)
             if bt is None:
                 self.cond(s.test)
+            else:
+                # the tested expression itself is still evaluated (isinstance(np.asarray(z.data), da.Array) forces)
+                t_ = s.test.operand if isinstance(s.test, ast.UnaryOp) else s.test
+                self.ev(t_.args[0])
             e0, n0 = dict(self.env), set(self.numpy_exprs)
             if bt is not None and not bt[1]:
                 self.mark_numpy(bt[0])
